@@ -217,7 +217,8 @@ def build(doc, objs=None, classes=None):
             cd["__doc__"] = spec["doc"]
         for a, p in spec["props"].items():
             cd[a] = prop(p)
-        c = type(base)(name, (base,), cd, **kwargs(spec["kw"]))
+        # "pyname": the class's __name__ when it differs from its key in the doc (two distinct classes with one name)
+        c = type(base)(spec.get("pyname") or name, (base,), cd, **kwargs(spec["kw"]))
         classes[name] = c
         if objs is not None:
             objs[id(spec)] = c
